@@ -17,7 +17,7 @@ MANIFEST_ENTRY = {
             "complete once saturated); the implementation forest's packed alternatives are compared with it in both "
             "directions on every explored sentence",
     "note": "trusted: Lean kernel; glr.py's reducer is modelled executably (Model/GLR.lean) and compared exactly "
-            "(acceptance and alternative sets) on every input without lexical ambiguity between heads, but no "
+            "(acceptance and alternative sets) on every input except those with order-sensitive revisit sets, but no "
             "theorem is proved about that model: forest "
             "completeness is decided by this verified-oracle comparison on the explored scope; lost derivations on "
             "hidden-left-recursive grammars are the recorded finding F-GLR-2",
